@@ -364,6 +364,11 @@ def rule_c(ctx: Context, R: Reporter):
             continue  # not a writer
         if not tempfile_mode:
             opened = call_arg(open_call, 0, "file")
+            trunc = "w" in mode.value and "a" not in mode.value and "x" not in mode.value
+            R.check("C08.c", "the temporary file is opened for truncating write (a stale temporary left by a crash is simply overwritten)", trunc, fi, open_call,
+                    msg=f"{fi.short}: `{unparse(open_call)[:60]}` opens the temporary name with mode {mode.value!r}: a crash during an earlier save leaves that name behind, after which "
+                        + ("every later save to the same checkpoint name raises FileExistsError (the resumed run aborts at its first checkpoint)" if "x" in mode.value
+                           else "the new pickle is appended to the truncated one and the published checkpoint cannot be loaded"), key="temp-open-mode")
         # final name = the path parameter of the function
         final_params = [p for p in fi.params if p not in ("self", "cls")]
         rs = ExprResolver(fi.node)
@@ -443,6 +448,65 @@ def rule_c(ctx: Context, R: Reporter):
             if isinstance(p, ast.Name) and p.id in final_params:
                 R.check("C08.c", "no second writer opens the final name", False, fi, c,
                         msg=f"`{unparse(c)}` opens the final checkpoint name for writing")
+
+    # callers of the checkpoint writers (two levels up): a second, non-atomic publication of the file just written
+    writer_fns = {f.qualname for (f, _, _) in ds} | {f.qualname for (f, _) in bw}
+    level = set(writer_fns)
+    callers = set()
+    for _ in range(2):
+        nxt = set()
+        for fi in ctx.prog.functions.values():
+            if fi.qualname in level or fi.qualname in callers:
+                continue
+            for (call, tg) in ctx.cg.sites.get(fi.qualname, []):
+                if any(isinstance(t, FuncInfo) and t.qualname in level for t in tg):
+                    nxt.add(fi.qualname)
+        callers |= nxt
+        level = nxt
+    n_callers = 0
+    for q in sorted(callers):
+        fi = ctx.prog.functions[q]
+        n_callers += 1
+        for c2 in calls_in(fi.node):
+            en = ctx.res.external_name(fi, c2) or ""
+            if en in NON_ATOMIC_MOVES or en in ("os.link", "shutil.copyfileobj", "shutil.copytree"):
+                R.check("C08.c", "a checkpoint is published under a final name only by the atomic rename of its own temporary file", False, fi, c2,
+                        msg=f"{fi.short}: `{unparse(c2)[:70]}` publishes a second copy of a checkpoint by copying: the copy is written in place under its final name, "
+                            f"so a crash during it leaves a truncated, unloadable state file", key="non-atomic-copy-of-checkpoint")
+    R.floor("C08.c", "callers of the checkpoint writers examined for non-atomic copies", n_callers, 2)
+    # checkpoint names: nothing cuts a name that contains the user's label at a dot
+    n_label = 0
+    for fi in ctx.prog.functions.values():
+        tainted: Set[str] = {p for p in fi.params if p in ("output_label", "label")}
+
+        def mentions(e):
+            return any((isinstance(x, ast.Attribute) and x.attr == "output_label") or (isinstance(x, ast.Name) and x.id in tainted) for x in ast.walk(e))
+
+        changed = True
+        while changed:
+            changed = False
+            for st in walk_no_nested(fi.node):
+                if isinstance(st, ast.Assign) and mentions(st.value):
+                    for t in st.targets:
+                        for x in ast.walk(t):
+                            if isinstance(x, ast.Name) and x.id not in tainted:
+                                tainted.add(x.id)
+                                changed = True
+        for x in walk_no_nested(fi.node):
+            recv = None
+            if isinstance(x, ast.Call) and isinstance(x.func, ast.Attribute) and x.func.attr in ("with_suffix", "with_stem", "rsplit", "rpartition", "removesuffix"):
+                recv = x.func.value
+            elif isinstance(x, ast.Call) and (ctx.res.external_name(fi, x) or "") in ("os.path.splitext", "posixpath.splitext") and x.args:
+                recv = x.args[0]
+            elif isinstance(x, ast.Attribute) and x.attr in ("stem", "suffix", "suffixes") and isinstance(x.ctx, ast.Load):
+                recv = x.value
+            if recv is not None and mentions(recv):
+                R.check("C08.c", "a checkpoint name keeps the user's label and the iteration tag whole", False, fi, x,
+                        msg=f"{fi.short}: `{unparse(x)[:70]}` cuts a name built from the output label at its last dot: with a label that contains a dot ('run_v1.5') the iteration tag is "
+                            f"cut off and every checkpoint of the run overwrites one file", key="label-cut-at-dot")
+        if any(isinstance(x, ast.Attribute) and x.attr == "output_label" and isinstance(x.ctx, ast.Load) for x in walk_no_nested(fi.node)):
+            n_label += 1
+    R.floor("C08.c", "functions that build names from the output label", n_label, 1)
 
 
 # ------------------------------------------------------------------ C08.d
@@ -1449,6 +1513,16 @@ def variants():
     core = "tempest/core.py"
     sm = "tempest/state_manager.py"
     return [
+        Variant("c-temp-opened-exclusively", "bad", replace_expr(core, "SamplerCore.save_sampler_state", "open(temp_path, 'wb')", "open(temp_path, 'xb')"), ["C08.c"], quick=True),
+        Variant("c-temp-opened-for-append", "bad", replace_expr(sm, "StateManager.save_state", "open(temp_path, 'wb')", "open(temp_path, 'ab')"), ["C08.c"]),
+        Variant("c-latest-copy-next-to-numbered", "bad", chain(insert_before_function(core, "SamplerCore", "import shutil\n"),
+                                                              insert_after(core, "SamplerCore.execute_iteration", "self.save_sampler_state(self.config.output_dir / f'{self.config.output_label}_{iter_val}.state')",
+                                                                           "shutil.copyfile(self.config.output_dir / f'{self.config.output_label}_{iter_val}.state', self.config.output_dir / f'{self.config.output_label}_latest.state')")), ["C08.c"], quick=True),
+        Variant("c-checkpoint-name-with-suffix", "bad", replace_expr(core, "SamplerCore.execute_iteration", "self.config.output_dir / f'{self.config.output_label}_{iter_val}.state'",
+                                                                      "(self.config.output_dir / f'{self.config.output_label}_{iter_val}').with_suffix('.state')"), ["C08.c"], quick=True),
+        Variant("c-benign-temp-mode-w-plus-b", "benign", replace_expr(core, "SamplerCore.save_sampler_state", "open(temp_path, 'wb')", "open(temp_path, 'w+b')")),
+        Variant("c-benign-name-via-local", "benign", replace_stmt(core, "SamplerCore.execute_iteration", "self.save_sampler_state(self.config.output_dir / f'{self.config.output_label}_{iter_val}.state')",
+                                                                  "name = f'{self.config.output_label}_{iter_val}.state'\nself.save_sampler_state(self.config.output_dir / name)")),
         Variant("i-loader-rewrites-history-through-alias", "bad", insert_before(core, "SamplerCore.load_sampler_state", "self.state.update_from_dict(d)", "hist = d.get('_history')\nif hist and 'logz' in hist:\n    hist['logz'] = [float(v) for v in hist['logz']]"), ["C08.i"], quick=True),
         Variant("m-import-squeezes-arrays", "bad", replace_expr(sm, "StateManager.update_from_dict", "self._ensure_copy(value)", "self._ensure_copy(np.squeeze(value) if isinstance(value, np.ndarray) else value)"), ["C08.m"], quick=True),
         Variant("m-benign-import-through-local", "benign", replace_stmt(sm, "StateManager.update_from_dict", "self._current[key] = self._ensure_copy(value)", "copied = self._ensure_copy(value)\nself._current[key] = copied")),
